@@ -1958,3 +1958,122 @@ func ruleCompileBodySource(c *Ctx, r *Report) {
 	}
 	r.analysed(rule, fname(fn))
 }
+
+// ---------------------------------------------------------------------------
+// R-PRIORITY-DOMAIN (C18; added after seed C18i): op/3 accepts priorities 0..1200, so 0..1200 is what current_op/3
+// can be asked about: "current_op/3 enumerates exactly the table" in every instantiation pattern. Wherever
+// domain_error(operator_priority, _) is raised for an integer, the values that get past the test are exactly
+// 0..1200: on the other branch of the deciding test the branch facts bound the integer by 0 below and 1200 above.
+func rulePriorityDomain(c *Ctx, r *Report) {
+	const rule = "R-PRIORITY-DOMAIN"
+	desc := "the integers accepted as an operator priority are exactly 0..1200"
+	de := c.fn("domainError")
+	kc, _ := c.Engine.Members["validDomainOperatorPriority"].(*ssa.NamedConst)
+	if de == nil || kc == nil {
+		r.undecided(rule, "anchor:domainError/validDomainOperatorPriority", "-", desc, "not found")
+		return
+	}
+	want, _ := constInt(kc.Value)
+	n := 0
+	for _, fn := range c.LibFuncs() {
+		if funcPkg(fn) != c.Engine {
+			continue
+		}
+		k := 0
+		eachInstr(fn, func(in ssa.Instruction) {
+			call, ok := in.(*ssa.Call)
+			if !ok || call.Call.StaticCallee() != de || len(call.Call.Args) == 0 {
+				return
+			}
+			if kv, ok := constInt(call.Call.Args[0]); !ok || kv != want {
+				return
+			}
+			// the tests that lead here: the predecessors of this block end in comparisons of one Integer with
+			// constants (p < 0 || p > 1200 is two blocks); the accepting branch is the successor of such a test
+			// that is neither this block nor another test of the chain
+			var v ssa.Value
+			chain := map[*ssa.BasicBlock]bool{}
+			for _, p := range in.Block().Preds {
+				if x, _, _, ok := cmpConst(ifCond(p)); ok && isEngNamed(x.Type(), "Integer") {
+					v = x
+					chain[p] = true
+				}
+			}
+			// `switch { case p < 0 || p > 1200: }` makes the disjunction a VALUE: the branch is on a phi whose constant
+			// edges come from the tests that were true and whose last edge is the last test itself
+			phiFacts := map[fact]bool{}
+			if v == nil {
+				for _, p := range in.Block().Preds {
+					phi, ok := ifCond(p).(*ssa.Phi)
+					if !ok || len(p.Succs) != 2 || p.Succs[0] != in.Block() {
+						continue
+					}
+					okAll := true
+					for i, e := range phi.Edges {
+						if kc, isConst := e.(*ssa.Const); isConst {
+							q := phi.Block().Preds[i]
+							x, _, _, ok := cmpConst(ifCond(q))
+							if !ok || !isEngNamed(x.Type(), "Integer") || kc.Value == nil || !constant.BoolVal(kc.Value) || len(q.Succs) != 2 {
+								okAll = false
+								continue
+							}
+							v = x
+							phiFacts[fact{ifCond(q), false}] = true
+						} else if x, _, _, ok := cmpConst(e); ok && isEngNamed(x.Type(), "Integer") {
+							v = x
+							phiFacts[fact{e, false}] = true
+						} else {
+							okAll = false
+						}
+					}
+					if !okAll {
+						v = nil
+					}
+				}
+			}
+			if v == nil {
+				return // raised for a non-integer (the type was wrong): nothing about the range here
+			}
+			var accept *ssa.BasicBlock
+			for p := range chain {
+				for _, s := range p.Succs {
+					if s != in.Block() && !chain[s] {
+						accept = s
+					}
+				}
+			}
+			if accept == nil && len(phiFacts) == 0 {
+				return
+			}
+			n++
+			k++
+			key := fmt.Sprintf("%s/priority-test#%d", fname(fn), k)
+			// what is known on the accepting path: every test of the chain came out the way that does not lead here
+			acc := map[fact]bool{}
+			for p := range chain {
+				if len(p.Succs) == 2 {
+					acc[fact{ifCond(p), p.Succs[0] != in.Block()}] = true
+				}
+			}
+			for f := range phiFacts {
+				acc[f] = true
+			}
+			rg := c.rangeFromFacts(acc, v)
+			if rg.hasLo && rg.lo == 0 && rg.hasHi && rg.hi == 1200 {
+				r.ok(rule, key, c.at(in), desc, "past the test the integer is known to lie in 0..1200", true)
+			} else {
+				lo, hi := "-inf", "+inf"
+				if rg.hasLo {
+					lo = fmt.Sprint(rg.lo)
+				}
+				if rg.hasHi {
+					hi = fmt.Sprint(rg.hi)
+				}
+				r.bad(rule, key, c.at(in), desc, "past the test the integer is known to lie in "+lo+".."+hi+", not 0..1200: a priority op/3 accepts is refused here (or one it refuses is accepted), so the table is reported differently depending on how the priority argument is instantiated")
+			}
+		})
+	}
+	if n == 0 {
+		r.undecided(rule, "scan/priority-tests", "-", desc, "no range test that raises domain_error(operator_priority, _) found")
+	}
+}
